@@ -138,6 +138,11 @@ class Fraction:
         return 0
 
     def __eq__(self, other: Any) -> bool:
+        if not isinstance(other, NumberType) and not (
+            hasattr(other, "numerator") and hasattr(other, "denominator")
+        ):
+            # Not something which can be compared to a fraction (i.e.: None, str).
+            return NotImplemented
         return self.__old_cmp__(other) == 0
 
     def __lt__(self, other: Any) -> bool:
